@@ -51,6 +51,7 @@ type Solver struct {
 	Retries      int
 	TimeNs       int64
 	popPending   bool
+	killed       int32
 	resetPending bool
 	LogFile      *os.File
 }
@@ -122,24 +123,34 @@ func (s *Solver) start() {
 
 func (s *Solver) isCVC5() bool { return strings.HasPrefix(string(s.kind), "cvc5") }
 
+// Kill aborts whatever the solver is doing; the next Check restarts it.
+func (s *Solver) Kill() {
+	atomic.StoreInt32(&s.killed, 1)
+	if s.cmd != nil && s.cmd.Process != nil {
+		s.cmd.Process.Kill()
+	}
+}
+
 func (s *Solver) Close() {
 	if s.cmd != nil && s.cmd.Process != nil {
 		s.in.Close()
 		s.cmd.Process.Kill()
 		s.cmd.Wait()
+		s.cmd = nil
 	}
 	s.dead = true
 }
 
-var valRe = regexp.MustCompile(`\(\s*\|([^|]+)\|\s+(#x[0-9a-fA-F]+|#b[01]+|true|false)\s*\)`)
+var valRe = regexp.MustCompile(`\(\s*(\|[^|]+\||[^\s()|]+)\s+(#x[0-9a-fA-F]+|#b[01]+|true|false)\s*\)`)
 
 // Check runs one self-contained query. body = declarations, definitions and
 // assertions; vars = variables whose values are wanted on sat.
 func (s *Solver) Check(body string, vars []*Term) (SatResult, Model, string) {
 	t0 := time.Now()
 	defer func() { s.TimeNs += time.Since(t0).Nanoseconds(); s.Queries++ }()
+	atomic.StoreInt32(&s.killed, 0)
 	res, m, note := s.check1(body, vars, false)
-	if res == Unknown && !s.isCVC5() {
+	if res == Unknown && !s.isCVC5() && atomic.LoadInt32(&s.killed) == 0 {
 		// z3's incremental core gave up: retry once as a fresh one-shot problem (tactic pipeline)
 		s.Retries++
 		res, m, note = s.check1(body, vars, true)
@@ -225,7 +236,7 @@ func (s *Solver) check1(body string, vars []*Term, oneShot bool) (SatResult, Mod
 		}
 		m = Model{}
 		for _, mm := range valRe.FindAllStringSubmatch(txt, -1) {
-			m[mm[1]] = parseLit(mm[2])
+			m[strings.Trim(mm[1], "|")] = parseLit(mm[2])
 		}
 		if len(m) != len(vars) {
 			s.finish()
